@@ -22,9 +22,9 @@ import (
 
 func init() {
 	ev.Register(&ev.Check{
-		ID:    "C19c",
-		Level: "model_checking",
-		Rule: "controlled-scheduler exploration of the real ASTNodes, RuleASTNodes and Constraints maps: 2 threads x 2 operations (ALL 4-tuples over a 9-operation alphabet: Set(a,1), Set(b,2), Delete(a), Update(a), Filter(drop odd), Map(swap), Get(a), Len, Each) and 3 threads x 1 operation (all triples), from the empty and from a two-entry initial state, ALL interleavings at lock points (unbounded preemptions: executions are short); every complete history must be linearizable w.r.t. the reference insertion-ordered map (brute force over all orders consistent with program order) and the race monitor must stay silent.",
+		ID:          "C19c",
+		Level:       "model_checking",
+		Rule:        "controlled-scheduler exploration of the real ASTNodes, RuleASTNodes and Constraints maps: 2 threads x 2 operations (ALL 4-tuples over a 9-operation alphabet: Set(a,1), Set(b,2), Delete(a), Update(a), Filter(drop odd), Map(swap), Get(a), Len, Each) and 3 threads x 1 operation (all triples), from the empty and from a two-entry initial state, ALL interleavings at lock points (unbounded preemptions: executions are short); every complete history must be linearizable w.r.t. the reference insertion-ordered map (brute force over all orders consistent with program order) and the race monitor must stay silent.",
 		Workers:     func(string) int { return 16 },
 		Run:         run,
 		Replay:      func(stdjson.RawMessage) (bool, string) { return false, "re-run ./check C19 quick" },
@@ -98,7 +98,9 @@ func (a ruleM) Filter(f func(k, v int) bool) {
 	a.m.Filter(func(k string, v jschema.RuleASTNode) bool { return f(kidx(k), rid(v)) })
 }
 func (a ruleM) Map(f func(k, v int) int) {
-	a.m.Map(func(k string, v jschema.RuleASTNode) (jschema.RuleASTNode, error) { return rval(f(kidx(k), rid(v))), nil })
+	a.m.Map(func(k string, v jschema.RuleASTNode) (jschema.RuleASTNode, error) {
+		return rval(f(kidx(k), rid(v))), nil
+	})
 }
 func (a ruleM) Get(k int) (int, bool) { v, ok := a.m.Get(keyNames[k]); return rid(v), ok }
 func (a ruleM) Len() int              { return a.m.Len() }
